@@ -216,6 +216,12 @@ def level_b(rep, tier, seed):
 def main(tier, seed):
     core.assert_repo_import()
     rep = Report("C13", tier, seed)
+    # determinism first: a divergence is a harness error (exit 2), nothing is believed
+    import selftest
+
+    det = [selftest.syn_selftest(seed, 64 if tier == "quick" else 2048),
+           selftest.grid_selftest(seed, 2 if tier == "quick" else 8)]
+    say(f"[C13] determinism self-test ok: {[(d['engine'], d['indices']) for d in det]}")
     info_a, samples = level_a(rep, tier, seed)
     info_b, samples_b = rep.phase("level_B", level_b, rep, tier, seed) or (
         {"runs": 0, "distinct_signatures": 0, "aborted": True}, [])
@@ -243,7 +249,7 @@ def main(tier, seed):
             "worker SIGKILL is outside the statement and not injected",
             "a clean batch is evidence about the sampled schedules and fault plans only",
         ],
-        extra={"components": {
+        extra={"determinism_selftest": det, "components": {
             "real": ["hypnotoad.utils.parallel_map.ParallelMap (__init__, __call__, "
                      "worker_run, __del__)", "dill", "multiprocessing.reduction.ForkingPickler"],
             "stub": ["multiprocessing.Queue", "multiprocessing.Process", "task functions "
